@@ -1826,3 +1826,52 @@ func ruleP16(r *Run) {
 		r.Check(delivered && reassigned, key, fd.Pos(), "loadAndDelete(index) <- error; then another error (or none) for the connection", "the branch for a frame with the error flag only sets the error of the receive loop: the connection is closed with it and EVERY pending call fails with the error text of the one call the frame answers (a concurrent slow(42) fails with `unsupported type: chan int` of another call; over UDP the client socket is closed for one refused datagram)")
 	}
 }
+
+// ---------------------------------------------------------------------------------------------------
+// P17 register the place for the answer before the request becomes visible (reverse caller)
+
+func init() {
+	register("P17", "Caller.InvokeContext registers the channel for the answer (resultMap.Set) before it puts the call where a provider can fetch it (callCache.Append) and before it wakes a parked poll (response): once the call is in the cache a concurrent invocation's response() may deliver it, and an answer that arrives before the registration matches no pending call and is dropped - the caller runs into its time-out although the provider answered", 1, ruleP17)
+}
+
+func ruleP17(r *Run) {
+	p := r.P
+	fd, pkg := p.DeclOf("rpc/plugins/reverse", "Caller.InvokeContext")
+	key := "answer channel registered before the call is published in rpc/plugins/reverse.Caller.InvokeContext"
+	if fd == nil {
+		r.Undec(key, 0, "not found")
+		return
+	}
+	info := pkg.TypesInfo
+	var posSet, posAppend, posResponse token.Pos
+	ast.Inspect(fd.Body, func(m ast.Node) bool {
+		c, ok := m.(*ast.CallExpr)
+		if !ok {
+			return true
+		}
+		f := Callee(info, c)
+		if f == nil {
+			return true
+		}
+		switch p.FuncName(f) {
+		case "rpc/plugins/reverse.resultMap.Set":
+			if posSet == 0 {
+				posSet = c.Pos()
+			}
+		case "rpc/plugins/reverse.callCache.Append":
+			if posAppend == 0 {
+				posAppend = c.Pos()
+			}
+		case "rpc/plugins/reverse.Caller.response":
+			if posResponse == 0 {
+				posResponse = c.Pos()
+			}
+		}
+		return true
+	})
+	if posSet == 0 || posAppend == 0 {
+		r.Undec(key, fd.Pos(), "resultMap.Set or callCache.Append not found in InvokeContext")
+		return
+	}
+	r.Check(posSet < posAppend && (posResponse == 0 || posSet < posResponse), key, fd.Pos(), "resultMap.Set precedes callCache.Append and response", "the call is put into the cache (or the parked poll is woken) before the channel for its answer is registered: under load the provider's answer can arrive first, `end` finds no pending call for it and drops it, and the caller times out although the call was executed")
+}
